@@ -451,8 +451,13 @@ class TypeChecker:
             if isinstance(target, ast.Variable):
                 expr.lvalue = True
                 expr.typ = target.typ
-            else:  # pragma: no cover
-                raise NotImplementedError(str(target))
+            elif isinstance(target, ast.Constant):
+                expr.lvalue = False
+                expr.typ = target.typ
+            else:
+                raise SemanticError(
+                    f"Cannot use {target} in expression", expr.loc
+                )
             return
 
         self.check_expr(expr.base)
